@@ -15,13 +15,25 @@ FORBIDDEN = re.compile(r"\b(Admitted|admit|Axiom|Axioms|Parameter|Parameters|Con
 
 
 def sh(cmd, timeout=600, cwd=None, env=None, inp=None):
+    """Run a command (string = through the shell) in its OWN process group; on timeout the whole group is
+    killed, so that a harness child that never returns (e.g. a non-terminating library call) cannot survive the check."""
+    import signal
     t0 = time.time()
+    p = subprocess.Popen(cmd, shell=isinstance(cmd, str), cwd=cwd, env=env, stdin=subprocess.PIPE if inp is not None else subprocess.DEVNULL,
+                         stdout=subprocess.PIPE, stderr=subprocess.PIPE, start_new_session=True)
     try:
-        p = subprocess.run(cmd, shell=isinstance(cmd, str), cwd=cwd, env=env, input=inp,
-                           capture_output=True, timeout=timeout)
-        return p.returncode, p.stdout.decode("utf8", "replace"), p.stderr.decode("utf8", "replace"), time.time() - t0
-    except subprocess.TimeoutExpired as e:
-        return 124, (e.stdout or b"").decode("utf8", "replace"), "TIMEOUT " + (e.stderr or b"").decode("utf8", "replace"), time.time() - t0
+        out, err = p.communicate(inp, timeout=timeout)
+        return p.returncode, out.decode("utf8", "replace"), err.decode("utf8", "replace"), time.time() - t0
+    except subprocess.TimeoutExpired:
+        try:
+            os.killpg(p.pid, signal.SIGKILL)
+        except Exception:
+            p.kill()
+        try:
+            out, err = p.communicate(timeout=10)
+        except Exception:
+            out, err = b"", b""
+        return 124, (out or b"").decode("utf8", "replace"), "TIMEOUT " + (err or b"").decode("utf8", "replace"), time.time() - t0
 
 
 class Ctx:
